@@ -11,3 +11,5 @@ import RosuModel.Props.C02Timing
 import RosuModel.Props.C02Codec
 import RosuModel.Props.C02File
 import RosuModel.Props.C02Decoded
+import RosuModel.Props.C02CodecIeee
+import RosuModel.Props.IeeeFalse
